@@ -105,6 +105,14 @@ CHECKS = {
             "component by component; PPO.train_batch decides the optimiser / global-norm-clipping clause.",
             "ratios realised through exp(ln r): tolerance 2e-5; off-policy approx_kl value and irrational std not decided.",
             "DESIGN.md section 4 C08"),
+    "C18": ("TLA+ Checkpoint spec: TLC exhaustive over save/load histories + TLC-generated behaviours replayed on the real file system (S2C)",
+            "Checkpoint.tla models paths, spellings (with / without .eqx, dotted stems, nested new directories) and architecture "
+            "signatures; TLC checks round-trip / loud-mismatch / no-partial-load for all histories within bounds, then behaviours "
+            "generated by TLC are replayed against the real Serializable.serialize / deserialize with real policy pools (all policy "
+            "classes, space kinds, mismatching widths / depths / observation / action dimensions); after every load the outcome must "
+            "be the specification's: bit-identical parameters and identical actions / values / log-probs, or an exception.",
+            "pools of 4 policies per class (two architectures x two parameter keys).",
+            "DESIGN.md section 4 C18"),
 }
 
 PENDING_REASON = "check not built yet in this round (planned: see DESIGN.md section 4); not claimed until its machinery exists"
